@@ -83,17 +83,33 @@
      C04_load_miss     ... equivalently (visibility is decidable): a lookup that misses is
                        justified by a state of the run in which k was NOT visible in the
                        table -- "a completed write is never lost" as seen by readers.
-   NOT a closed theorem: the final composition into "every history is
-   linearizable": readers linearize at a moment inside their interval (C16 gives
-   what they do, C04_vis_step what they can see), and a writer that passed its
-   checks before a Clear published its table completes on the old table and has
-   to be linearized just before that Clear.  That composition is checked on the
-   real code by the schedule search (porcupine).
-   The search part of the check runs the real code under random / PCT schedules
-   with colliding hashers and tables at the grow / shrink thresholds and checks
-   every history for linearizability (porcupine). *)
-From CacheV Require Import Base SpecMap TableModel XMachine TabExec Exec XExec.
+     C04_linearizable  (proofs/X_stale.v, X_linpoints.v, X_linearizable.v) THE HISTORY-LEVEL THEOREM:
+                       every run of XMachine whose calls are Load, Compute (i.e. Store,
+                       LoadOrStore, LoadAndStore, LoadOrCompute, Compute, LoadAndDelete,
+                       Delete: all are doCompute with a function and two flags) and Clear --
+                       any number of threads, any schedule, any hash function, seeds and
+                       resize policies -- is linearizable (Lin.v) with respect to an ordinary
+                       map K -> option V whose operations answer and update as xspec says,
+                       across grow, shrink and Clear.  The proof is a forward invariant that
+                       carries the instrumented history split by table generation and inserts
+                       marks INTO ITS PAST: a writer is marked at the end of the body of its
+                       table's generation (the end of the history if that table is current,
+                       just before the Clear's mark if the writer was overtaken by a Clear);
+                       a Clear takes effect at its publish store; a reader is marked when it
+                       returns, at a cut in the past at which the abstract map justified its
+                       answer (C04_load_hit / C04_load_miss give the cut).  False of the
+                       model, each with a vm_compute'd schedule in X_linearizable.v: "a
+                       reader's linearization point is one of its own steps", "writers are
+                       linearized in the order of their linearization stores also relative to
+                       Clear", "no thread is past resizeInProgress() on a replaced table".
+                       Size and Range are not linearizable operations of this map and are
+                       excluded (okop); they are C08 and C07.
+     C04_stale_frozen  after the publish of a grow or shrink nobody is ever again past its
+                       checks on the replaced table and what it shows never changes again.
+   *)
+From CacheV Require Import Base SpecMap TableModel XMachine TabExec Exec XExec Lin.
 From CacheV.proofs Require Import C11_lists C11_table C11_idx X_basic X_inv X_c13 X_inst X_own X_chain X_c04 X_lin X_resize X_swar X_atomic X_range X_loadhit.
+From CacheV.proofs Require X_stale X_linpoints X_linearizable.
 From Coq Require Import NArith.
 Local Open Scope nat_scope.
 
@@ -239,6 +255,39 @@ Theorem C04_load_miss :
 Proof. exact @load_miss_proof. Qed.
 Print Assumptions C04_load_miss.
 
+Theorem C04_linearizable :
+  forall (K V : Type) (eqd : forall a b : K, {a = b} + {a <> b}) hash idx tag nslots seeds g sh probe nstripes minlen grow_only,
+    xhyps4 idx nstripes minlen nslots probe -> forall len0 todo sched, (0 < len0)%nat ->
+    (forall t, Forall X_linpoints.okop (todo t)) ->
+    linearizable (@xop K V) (@xres K V) (X_linpoints.amap K V) (X_linpoints.xspec eqd) X_linpoints.aempty
+      (X_linpoints.xhist (snd (@xrun K V eqd hash idx tag nslots seeds g sh probe nstripes minlen grow_only (xinit nslots seeds nstripes len0 todo) sched))).
+Proof. exact @X_linearizable.xmachine_linearizable_proof. Qed.
+Print Assumptions C04_linearizable.
+
+(* ... and for the extracted machine that CORR-sched replays against mapof.go *)
+Theorem C04_linearizable_instance :
+  forall (o : oracle) (sds : list N) (hint : Z) (todo : nat -> list xop_z) sched,
+    (forall t, Forall X_linpoints.okop (todo t)) ->
+    linearizable xop_z (@xres Z Z) (X_linpoints.amap Z Z) (X_linpoints.xspec zeqd) X_linpoints.aempty
+      (X_linpoints.xhist (snd (@xrun Z Z zeqd (hash_of o) idx_mapof tag_mapof (Z.to_nat Params.entriesPerMapOfBucket) (seeds_of sds)
+                         grow_needed_m shrink_policy_m probe_x nstripes_x (minlen_of_hint true hint) false
+                         (x_machine_init sds hint todo) sched))).
+Proof. exact X_linearizable.xmachine_linearizable_instance. Qed.
+Print Assumptions C04_linearizable_instance.
+
+Theorem C04_stale_frozen :
+  forall (K V : Type) (eqd : forall a b : K, {a = b} + {a <> b}) hash idx tag nslots seeds g sh probe nstripes minlen grow_only,
+    xhyps4 idx nstripes minlen nslots probe -> forall len0 todo sched0 t kt new s1 ls sched, (0 < len0)%nat ->
+    let s := fst (@xrun K V eqd hash idx tag nslots seeds g sh probe nstripes minlen grow_only (xinit nslots seeds nstripes len0 todo) sched0) in
+    g_pc s t = PR_Publish kt new -> ~ clear_kt kt ->
+    @xstep K V eqd hash idx tag nslots seeds g sh probe nstripes minlen grow_only s t = Some (s1, ls) ->
+    g_cur s1 = S (g_cur s) /\
+    along eqd hash idx tag nslots seeds g sh probe nstripes minlen grow_only
+          (fun s' => (forall u, wtab (g_pc s' u) <> Some (g_cur s))
+                     /\ forall k v, vis hash idx (tab_at nslots nstripes s' (g_cur s)) k v <-> X_resize.abs hash idx nslots nstripes s k v) s1 sched.
+Proof. exact @X_stale.stale_grow_frozen_proof. Qed.
+Print Assumptions C04_stale_frozen.
+
 Theorem C04_instance :
   forall hint, xhyps4 idx_mapof nstripes_x (minlen_of_hint true hint) (Z.to_nat Params.entriesPerMapOfBucket) probe_x.
 Proof. exact x_instance_hyps4. Qed.
@@ -292,3 +341,13 @@ Example C04_load_no_miss_nonvacuous :
   /\ kpos (fun _ _ => 5%N) (fun h len => N.to_nat h mod len) 2 (fun _ => 1) 7 0 ex_s04h 0.
 Proof. split; [eexists; vm_compute; reflexivity|]. vm_compute. split; [lia|]. split; [discriminate | eexists; reflexivity]. Qed.
 Print Assumptions C04_load_no_miss_nonvacuous.
+
+(* non-vacuity and the three false statements (proofs/X_linearizable.v, vm_compute on the executable instance): a run in
+   which a reader on a replaced table returns a value; a run in which a store completes after the Clear that overtook it
+   has returned and must be ordered before it; a reader whose answer is justified only between its own steps *)
+Definition C04_lin_stale_read_nonvacuous := X_linearizable.linearizable_stale_read.
+Definition C04_lin_overtaken_store_nonvacuous := X_linearizable.linearizable_overtaken_store.
+Definition C04_lin_between_steps_nonvacuous := X_linearizable.linearizable_read_between_steps.
+Print Assumptions C04_lin_stale_read_nonvacuous.
+Print Assumptions C04_lin_overtaken_store_nonvacuous.
+Print Assumptions C04_lin_between_steps_nonvacuous.
